@@ -227,7 +227,7 @@ func constrain(k *xzCase, big bool) {
 		switch k.Family {
 		case "sandwich":
 			lim = 300000
-		case "zeros", "run", "zeroprefix", "periodic", "lowent", "altseg", "nearrep":
+		case "zeros", "run", "zeroprefix", "periodic", "lowent", "altseg", "nearrep", "maxrun", "randzeros":
 			lim = 12000
 			if big {
 				lim = 40000
